@@ -138,6 +138,9 @@ func TestReplayFile(t *testing.T) {
 
 // TestReplaysOfFixedFindings re-runs every committed replay (regression tier, seconds long).
 func replayDir(t *testing.T, prop string) {
+	if sh, _ := gen.Shard(); sh != 0 {
+		return // the regression tier runs once, in shard 0
+	}
 	entries, _ := os.ReadDir(gen.VerifDir() + "/replays/fixed")
 	for _, e := range entries {
 		if e.IsDir() || len(e.Name()) < 4 || e.Name()[:3] != prop {
